@@ -83,7 +83,8 @@ def run_job(job):
                 st = s.cmd("setup_new", rng=rng, out="S")
                 a = s.cmd("creg_start", rng=rng, pw=pw, out_state="g.cs", out_msg="g.rq")
                 b = s.cmd("sreg_start", setup="S", req="g.rq", cred=b"id", out="g.rr")
-                c = s.cmd("creg_finish", rng=rng, state="g.cs", pw=pw, resp="g.rr", ksf=rm, out="g.up")
+                vias = ["new", "clone", "literal", "default"]
+                c = s.cmd("creg_finish", rng=rng, state="g.cs", pw=pw, resp="g.rr", ksf=rm, out="g.up", params_via=vias[(pi + modes.index(rm)) % 4])
                 d = s.cmd("sreg_finish", upload="g.up", out="g.file")
                 evals += 5
                 for r_, op in ((st, "ServerSetup::new"), (a, "ClientRegistration::start"), (b, "ServerRegistration::start"), (d, "ServerRegistration::finish")):
@@ -102,7 +103,7 @@ def run_job(job):
                 for lm in modes + ["k1b"]:
                     e = s.cmd("clogin_start", rng=rng, pw=pw, out_state="l.cl", out_msg="l.cq")
                     f = s.cmd("slogin_start", rng=rng, setup="S", file="g.file", req="l.cq", cred=b"id", out_state="l.sl", out_msg="l.cr")
-                    g = s.cmd("clogin_finish", state="l.cl", pw=pw, resp="l.cr", ksf=lm, out="l.cf")
+                    g = s.cmd("clogin_finish", state="l.cl", pw=pw, resp="l.cr", ksf=lm, out="l.cf", params_via=vias[(stats["pairs"]) % 4])
                     evals += 3
                     no_ksf(e, "ClientLogin::start")
                     no_ksf(f, "ServerLogin::start")
@@ -220,7 +221,7 @@ def run_argon(job):
             for lm in logm:
                 s.cmd("clogin_start", rng=rng, pw=pw, out_state="l.cl", out_msg="l.cq")
                 s.cmd("slogin_start", rng=rng, setup="S", file="g.file", req="l.cq", cred=b"id", out_state="l.sl", out_msg="l.cr")
-                g = s.cmd("clogin_finish", state="l.cl", pw=pw, resp="l.cr", ksf=lm, out="l.cf")
+                g = s.cmd("clogin_finish", state="l.cl", pw=pw, resp="l.cr", ksf=lm, out="l.cf", params_via=["new", "clone", "literal", "default"][stats["argon_pairs"] % 4])
                 evals += 3
                 stats["argon_pairs"] += 1
                 expect = key[rm] == key[lm]
